@@ -18,13 +18,21 @@ DRIVERS = ["drv_reg"]
 DRIVER_EXE = "drv_reg"
 RULE = ("interleavings of registrations (accepted and rejected), read-only operations (CheckCategoryUnit, Scalar "
         "creation with unit+category / unit only / category only, Convert, IsValid, object-level GetValidUnits, +, "
-        "+/- on derived operands (asked repeatedly), products/quotients and ObtainQuantity(OrderedDict)/CreateDerived in both composition orders, the registry getters) and failing lookups on a private UnitDatabase(): bounded-exhaustive over a 30-operation "
-        "alphabet after a 2-, 4- or 5-call prefix to depth 3 (quick) / 4 (thorough), random interleavings of <= 30 steps over "
+        "+/- on derived operands (asked repeatedly), products/quotients and ObtainQuantity(OrderedDict)/CreateDerived in both composition orders, the registry getters) and failing lookups on a private UnitDatabase(): bounded-exhaustive over a 31-operation "
+        "alphabet (incl. a category registered with its own valid-units list that is not in sorted order, followed by failing lookups through it)  after a 2-, 4- or 5-call prefix to depth 3 (quick) / 4 (thorough), random interleavings of <= 30 steps over "
         "the name pools of C14; every step's outcome and registry-changed flag and the final memo tables are "
-        "compared; distinct = distinct history; non-trivial = a query follows a registration that follows a query")
+        "compared; distinct = distinct history; non-trivial = a query follows a registration that follows a query; "
+        "plus value-bearing arithmetic on derived operands as expression trees (products, quotients, sums, differences; the same ordered "
+        "unit pair with exponents 2, 3, -3, 4 asked in every order to depth 3 (quick) / 4 (thorough) over a 13-operation alphabet, and random): "
+        "the model takes it as an uninterpreted function of the registry, the warm answer is compared with the answer of a database "
+        "freshly built from the same registrations; plus families of 2-3 private databases alive at the same time that share names but "
+        "differ in units (every pair of questions addressed to either database with no registration in between, and random interleavings)")
 EXHAUSTIVE = {"quick": False, "thorough": False}
 ASSUMPTIONS = reg.ASSUMPTIONS + ["a query is a closed expression over plain data (value objects created before a "
-                                 "registration are snapshots: C07)"]
+                                 "registration are snapshots: C07)",
+                                 "the effect of an arithmetic expression on the memo tables is not modelled (the final tables are "
+                                 "compared as 'every entry the model has is there' for histories with such expressions); their "
+                                 "operand units are never legacy spellings"]
 
 PREFIX = [reg._base("length", "m"), reg._base("time", "s")]
 ALPHABET = [
@@ -62,6 +70,10 @@ ALPHABET = [
     dict(q="allUnits"),
     dict(q="allUnitNames"),
     dict(q="units", qt="length"),
+    # a category with its OWN valid-units list that is not in sorted order ('cm' < 'm'): lists reported by the database
+    # are ordered data, and a failing lookup through such a category (create depth/lbmole, check depth/cm before cm is
+    # registered, create length/s) must leave the list as it was registered
+    reg._cat("depth", "length", valid_units=["m", "cm"], override=True),
 ]
 N_CORE = 25   # the operations used at the deepest level of the thorough tier (the rest need the longer prefixes)
 
@@ -83,6 +95,8 @@ ALPHABET_U = [
     dict(q="allUnits"),
     dict(q="quantityTypes"),
     dict(q="categories"),
+    dict(q="findSimilar", u="BBL"),
+    dict(q="checkValueFor", c="Unknown", u=LABEL, x=1.0),
     reg._unit("length", LABEL),
     reg._unit("Unknown", "cm"),
 ]
@@ -98,9 +112,73 @@ def _history(ops, tag="h"):
     return dict(op="chist", ops=[rc.enc_cop(o) for o in ops], _t=dict(ops=ops, tag=tag))
 
 
+def _family(ops, n, tag="family"):
+    """an interleaved history on `n` private databases alive at the same time; every step carries `db`"""
+    return dict(op="chistN", n=n, ops=[dict(rc.enc_cop(o), db=o["db"]) for o in ops], _t=dict(ops=ops, n=n, tag=tag))
+
+
+# private registries that share quantity-type and category names but differ in what they hold
+VARIANTS = {
+    "A": [reg._base("length", "m"), reg._unit("length", "km"), reg._cat("length", "length"),
+          reg._cat("depth", "length", valid_units=["m", "km"])],
+    "B": [reg._base("length", "m"), reg._unit("length", "cm"), reg._cat("length", "length"), reg._cat("depth", "length")],
+    "C": [reg._base("time", "s"), reg._unit("time", "min"), reg._cat("length", "time"), reg._cat("time", "time")],
+    "D": [reg._base("length", "m"), reg._unit("length", "cm"), reg._unit("length", "km"),
+          reg._cat("depth", "length", min_value=0.0, max_value=10.0, valid_units=["km", "cm"]), reg._cat("length", "length")],
+}
+FAMILY_Q = [dict(q="create", c="length", u="km"), dict(q="create", c="length", u="cm"), dict(q="check", c="length", u="km"),
+            dict(q="check", c="depth", u="cm"), dict(q="createU", u="km"), dict(q="isValid", c="depth", u="km", x=5.0),
+            dict(q="objValidUnits", c="depth", u="cm")]
+
+
+def _interleave(rng, lists):
+    """the lists merged into one, each keeping its order (alternating when there is no rng)"""
+    pos, out = [0] * len(lists), []
+    while any(p < len(l) for p, l in zip(pos, lists)):
+        live = [i for i, l in enumerate(lists) if pos[i] < len(l)]
+        i = rng.choice(live) if rng else min(live, key=lambda j: (pos[j], j))
+        out.append(dict(lists[i][pos[i]], db=i))
+        pos[i] += 1
+    return out
+
+
+def _family_cases(ctx, salt, depth, n_random):
+    """two (or three) private databases used alternately: (a) both registered completely, then every sequence of
+    `depth` questions, each addressed to either database, with NO registration in between; (b) random interleavings of
+    registrations and questions"""
+    alpha = [dict(q, db=i) for q in FAMILY_Q for i in (0, 1)]
+    for va, vb in (("A", "B"), ("B", "C")):
+        pre = _interleave(None, [VARIANTS[va], VARIANTS[vb]])
+        for d in range(2, depth + 1):
+            for idx in itertools.product(range(len(alpha)), repeat=d):
+                if len({alpha[i]["db"] for i in idx}) == 2:
+                    yield _family(pre + [alpha[i] for i in idx], 2, "family-exhaustive")
+    rng = ctx.fresh_rng("C15f" + salt)
+    units = ["m", "cm", "km", "s", "min"]
+    for _ in range(n_random):
+        n = rng.choice([2, 2, 3])
+        names = [rng.choice(sorted(VARIANTS)) for _ in range(n)]
+        ops = _interleave(rng, [[o for o in VARIANTS[v] if rng.random() < 0.9] for v in names])
+        for _ in range(rng.randint(3, 12)):
+            i = rng.randrange(n)
+            r = rng.random()
+            if r < 0.12:
+                ops.append(dict(reg._rnd_op_n(rng), db=i))
+            elif r < 0.2:
+                ops.append(dict(rng.choice(VARIANTS[rng.choice(sorted(VARIANTS))]), db=i))
+            elif r < 0.3:
+                ops.append(dict(_arith(_rnd_expr(rng)), db=i))
+            elif r < 0.65:
+                ops.append(dict(rng.choice(FAMILY_Q), db=i))
+            else:
+                ops.append(dict(_rnd_query(rng, units, ["length", "depth", "time"]), db=i))
+        yield _family(ops, n, "family-random")
+
+
 RICH = PREFIX + [reg._unit("length", "cm"), reg._unit("length", "lbmol", dc="depth"), reg._unit("time", "min"),
                  reg._cat("length", "length"), reg._cat("depth", "length", min_value=0.0, max_value=10.0),
-                 reg._cat("time", "time", valid_units=["min"])]
+                 reg._cat("time", "time", valid_units=["min"]),
+                 reg._cat("c per d", "length", valid_units=["m", "lbmol", "cm"])]   # own list, not sorted
 PREFIX2 = PREFIX + [reg._unit("length", "cm"), reg._cat("depth", "length")]
 PREFIX3 = PREFIX2 + [reg._cat("length", "length")]
 
@@ -184,7 +262,143 @@ def _rnd_query(rng, units=(), cats=(), extra=False):
         _rnd_sumd(rng, cat, unit),
         dict(q="validUnits", c=c), dict(q="baseUnit", qt=rng.choice(types)), dict(q="units", qt=rng.choice(types)),
         dict(q="defaultCategory", u=u), dict(q="quantityType", u=u), dict(q="catInfo", c=c),
+        dict(q="defaultValue", c=c), dict(q="defaultUnit", c=c),
+        dict(q="findUnitCase", c=c, u=rng.choice([u.upper(), u.title(), u])), dict(q="findSimilar", u=rng.choice([u, u[:1], u.upper(), "l/m"])),
+        dict(q="checkValueFor", c=c, u=u, x=rng.choice([0.0, 3.0, 700.0, -2.0])),
     ])
+
+
+# ------------------------------------------------------------------------------------ value-bearing arithmetic
+def _sc(c, u, x):
+    return ["s", c, u, x]
+
+
+def _pw(leaf, n):
+    """leaf ** n written as a product (a derived operand carrying the leaf's unit with exponent n)"""
+    e = leaf
+    for _ in range(n - 1):
+        e = ["mul", e, leaf]
+    return e
+
+
+def _arith(e):
+    return dict(q="arith", e=e)
+
+
+PREFIX_A = [reg._base("length", "m"), reg._unit("length", "cm"), reg._unit("length", "km"), reg._base("time", "s"),
+            reg._unit("time", "min"), reg._cat("length", "length"), reg._cat("depth", "length"), reg._cat("time", "time")]
+_M2, _CM3, _KM2, _MIN2 = _sc("length", "m", 2.0), _sc("length", "cm", 3.0), _sc("length", "km", 3.0), _sc("time", "min", 4.0)
+ALPHABET_A = [
+    # the same ordered unit pair (cm -> m) with exponents 2, 3, -3, asked in every order (the answer to each must be the
+    # one a fresh database gives); the model takes this arithmetic as an uninterpreted function of the registry
+    _arith(["mul", _M2, _pw(_CM3, 2)]),
+    _arith(["mul", _M2, _pw(_CM3, 3)]),
+    _arith(["div", _M2, _pw(_CM3, 3)]),
+    _arith(["mul", _pw(_CM3, 2), _M2]),                                   # the pair the other way round (m -> cm)
+    _arith(["add", _pw(_M2, 2), _pw(_CM3, 2)]),                           # sums of derived operands
+    _arith(["sub", _pw(_M2, 3), _pw(_CM3, 3)]),
+    _arith(["mul", _sc("depth", "m", 2.0), _pw(_sc("length", "km", 3.0), 2)]),
+    _arith(["div", ["div", _sc("length", "m", 1.0), _sc("time", "s", 2.0)], _pw(_MIN2, 2)]),
+    _arith(["mul", ["u", "m", 2.0], _pw(["u", "cm", 3.0], 2)]),             # Scalar(x, unit): default category
+    # the same class where the model predicts the value itself (+/- of derived operands through _ConvertMatchingExp)
+    dict(q="sumd", f="add", ents=[["length", "m", 2]], ents2=[["length", "cm", 2]], x=1.0, y=2.0),
+    dict(q="sumd", f="sub", ents=[["length", "m", 3]], ents2=[["length", "cm", 3]], x=1.0, y=2.0),
+    dict(q="sumd", f="add", ents=[["length", "m", -2]], ents2=[["length", "cm", -2]], x=1.0, y=2.0),
+    reg._cat("depth", "length", valid_units=["m", "km"], override=True),   # a registration in between must not matter
+]
+
+
+def _exhaustive_a(depth):
+    for d in range(1, depth + 1):
+        for idx in itertools.product(range(len(ALPHABET_A)), repeat=d):
+            yield _history(PREFIX_A + [ALPHABET_A[i] for i in idx], "exhaustive-arith")
+
+
+_A_UNITS = {"length": ["m", "cm", "km", "mm"], "time": ["s", "min", "h"]}   # never a legacy spelling (see ASSUMPTIONS)
+_A_CATS = {"length": ["length", "depth", "c per d"], "time": ["time"]}
+
+
+def _rnd_leaf(rng, qt=None, unit=None):
+    qt = qt or rng.choice(["length", "length", "time"])
+    u = unit or rng.choice(_A_UNITS[qt])
+    x = rng.choice([2.0, 3.0, 0.5, -1.5, 4.0])
+    if rng.random() < 0.15:
+        return ["u", u, x]
+    return _sc(rng.choice(_A_CATS[qt]), u, x)
+
+
+def _rnd_expr(rng, pair=None):
+    """products / quotients / sums of derived operands; `pair` = (quantity type, unit a, unit b) to be met again with
+    other exponents inside the same history"""
+    qt, ua, ub = pair or (None, None, None)
+    if qt is None:
+        qt = rng.choice(["length", "length", "time"])
+        ua, ub = rng.choice(_A_UNITS[qt]), rng.choice(_A_UNITS[qt])
+    n = rng.choice([1, 2, 2, 3, 3, 4])
+    a, b = _rnd_leaf(rng, qt, ua), _pw(_rnd_leaf(rng, qt, ub), n)
+    r = rng.random()
+    if r < 0.35:
+        e = [rng.choice(["mul", "div"]), a, b]
+    elif r < 0.5:
+        e = [rng.choice(["mul", "div"]), b, a]
+    elif r < 0.75:
+        e = [rng.choice(["add", "sub"]), _pw(_rnd_leaf(rng, qt, ua), n), b]
+    elif r < 0.9:
+        other = _rnd_leaf(rng)
+        e = [rng.choice(["mul", "div"]), [rng.choice(["mul", "div"]), a, other], b]
+    else:
+        e = [rng.choice(["mul", "div", "add", "sub"]), _rnd_expr(rng, pair) if rng.random() < 0.5 else a, b]
+    return e
+
+
+def _rnd_sumd_pow(rng, pair):
+    qt, ua, ub = pair
+    n = rng.choice([2, 3, -2, -3, 2, 3])
+    c1, c2 = rng.choice(_A_CATS[qt]), rng.choice(_A_CATS[qt])
+    return dict(q="sumd", f=rng.choice(["add", "sub"]), ents=[[c1, ua, n]], ents2=[[c2, ub, n]], x=rng.choice([1.0, 5.0, -2.5]),
+                y=rng.choice([2.0, 1.0]))
+
+
+def _arith_random(ctx, salt, n):
+    rng = ctx.fresh_rng("C15a" + salt)
+    extra = [reg._unit("length", "mm"), reg._unit("time", "h"), reg._cat("c per d", "length", valid_units=["m", "mm", "cm"])]
+    for _ in range(n):
+        ops = list(PREFIX_A) + [o for o in extra if rng.random() < 0.6]
+        qt = rng.choice(["length", "length", "time"])
+        pairs = [(qt, rng.choice(_A_UNITS[qt]), rng.choice(_A_UNITS[qt])) for _ in range(2)]
+        for _ in range(rng.randint(3, 10)):
+            r = rng.random()
+            if r < 0.6:
+                ops.append(_arith(_rnd_expr(rng, rng.choice(pairs + [None]))))
+            elif r < 0.75:
+                ops.append(_rnd_sumd_pow(rng, rng.choice(pairs)))
+            elif r < 0.85 and len(ops) > len(PREFIX_A):
+                ops.append(dict(ops[rng.randrange(len(PREFIX_A), len(ops))]))       # asked again
+            elif r < 0.93:
+                ops.append(_rnd_query(rng, [u for us in _A_UNITS.values() for u in us], ["length", "depth", "time"]))
+            else:
+                ops.append(rng.choice(extra + [reg._cat("depth", "length", override=True, min_value=0.0)]))
+        yield _history(ops, "random-arith")
+
+
+def _vu_fragment(rng, ops):
+    """a category registered with its own valid-units list: a failing lookup/creation through it, then every place
+    where that list is reported (database, CategoryInfo, object level, a category copied from it)"""
+    own = [o["c"] for o in ops if "q" not in o and o["k"] == "cat" and isinstance(o["c"], str) and o["kw"].get("valid_units")]
+    if not own:
+        c = rng.choice(["depth", "c per d"])
+        vu = rng.choice([["m", "cm"], ["m", "lbmol", "cm"], ["m", "km", "cm"], ["cm", "m"], ["s", "min"], ["s", "h", "min"]])
+        first = [reg._cat(c, "time" if "s" in vu else "length", valid_units=vu, override=True)]
+    else:
+        c, first = rng.choice(own), []
+    bad = rng.choice(["s", "furlong", "min", "lbmole", LABEL, "m", "km"])
+    fail = rng.choice([dict(q="check", c=c, u=bad), dict(q="create", c=c, u=bad), dict(q="isValid", c=c, u=bad, x=1.0),
+                       dict(q="objValidUnits", c=c, u=bad), dict(q="getValue", c=c, u=bad, v="m", x=1.0),
+                       dict(q="add", c1=c, u1=bad, c2=c, u2="m", x=1.0, y=2.0)])
+    new = rng.choice(["c per d", "x cat", "depth"])
+    tail = [dict(q="validUnits", c=c), dict(q="catInfo", c=c), dict(q="objValidUnits", c=c, u=rng.choice(["m", "cm", "s"])),
+            reg._cat(new, from_category=c, override=rng.random() < 0.7), dict(q="validUnits", c=new), dict(q="catInfo", c=new)]
+    return first + [fail] + [t for t in tail if rng.random() < 0.7]
 
 
 def _random(ctx, salt, n, maxlen, extra=False):
@@ -201,7 +415,9 @@ def _random(ctx, salt, n, maxlen, extra=False):
             cats = [o["c"] for o in ops if "q" not in o and o["k"] == "cat" and isinstance(o["c"], str)]
             r = rng.random()
             if r < 0.3:
-                ops.append(reg._rnd_op(rng))
+                ops.append(reg._rnd_op_n(rng))
+            elif r > 0.96:
+                ops += _vu_fragment(rng, ops)
             elif r < 0.4 and ops:
                 prev = ops[rng.randrange(len(ops))]                  # repeat an earlier step (memo / cache path),
                 ops.append(_swapped(prev) if rng.random() < 0.6 else dict(prev))   # compositions also in the other order
@@ -221,12 +437,19 @@ def cases(ctx):
     yield from _exhaustive_u(3)
     if ctx.tier == "quick":
         yield from _exhaustive(2, (PREFIX3,))
-        yield from _exhaustive(3)
+        yield from _exhaustive(3, (PREFIX,), 30)
+        yield from _exhaustive(3, (PREFIX2,))      # (the unsorted valid-units override needs cm, which PREFIX2 registers)
         yield from _random(ctx, "q", 500, 30)
+        yield from _exhaustive_a(3)
+        yield from _arith_random(ctx, "q", 300)
+        yield from _family_cases(ctx, "q", 2, 200)
     else:
         yield from _exhaustive(4, (PREFIX,), N_CORE)
         yield from _exhaustive(3, (PREFIX2, PREFIX3))
         yield from _random(ctx, "t", 6000, 30)
+        yield from _exhaustive_a(4)
+        yield from _arith_random(ctx, "t", 4000)
+        yield from _family_cases(ctx, "t", 3, 3000)
 
 
 def model_line(c):
@@ -238,10 +461,14 @@ def case_key(c):
 
 
 def _show(o):
+    if o.get("q") == "arith":
+        return "arith(%s)" % rc.show_expr(o["e"])
     return ("%s(%s)" % (o["q"], ", ".join("%s=%r" % kv for kv in sorted(o.items()) if kv[0] != "q"))) if "q" in o else reg._show_op(o)
 
 
 def show(c):
+    if c["op"] == "chistN":
+        return ["db%d: %s" % (o["db"], _show({k: v for k, v in o.items() if k != "db"})) for o in c["_t"]["ops"][:14]]
     return [_show(o) for o in c["_t"]["ops"][:10]]
 
 
@@ -249,75 +476,169 @@ def _ckey(e):
     return (e[0] is not None, e[0] or "", e[1], e[2])
 
 
-def _run(ops, flags=True):
-    """The history on a fresh private database: per step the outcome and whether the registry changed."""
+def _tables(db):
+    memo = sorted([k[0], k[1], bool(v)] for k, v in db._category_unit_valid.items())
+    simple = {k: q for k, q in db.quantities_cache.items()
+              if len(k) == 3 and isinstance(k[1], str) and (k[0] is None or isinstance(k[0], str))}
+    cache = sorted(([k[0], k[1], k[2] is not None, q.GetCategory(), q.GetUnit()] for k, q in simple.items()), key=_ckey)
+    # keys of derived quantities: tuples of (category, (unit, exponent)) pairs
+    dcache = sorted(([[p[0], p[1][0], int(p[1][1])] if isinstance(p, tuple) and len(p) == 2 else ["<caption>", repr(p), 0]
+                      for p in k] for k in db.quantities_cache if k not in simple), key=repr)
+    limits = {k: (ci.min_value, ci.max_value) for k, ci in db.categories_to_quantity_types.items()}
+    return memo, cache, limits, dcache
+
+
+def _fresh_answer(regs, op):
+    """the operation on a database freshly built from the given registrations (the meaning the model gives to an
+    arithmetic question: a function of the registry only)"""
     from barril.units.unit_database import UnitDatabase
 
-    db = reg._new_db()
-    outs = []
-    UnitDatabase.PushSingleton(db)
+    fresh = reg._new_db()
+    UnitDatabase.PushSingleton(fresh)
     try:
-        for op in ops:
-            before = rc.snapshot(db) if flags else None
-            o = rc.ask(db, op) if "q" in op else rc.apply_reg(db, op)
-            if flags:
-                o = dict(o, changed=(rc.snapshot(db) != before))
-            outs.append(o)
-        memo = sorted([k[0], k[1], bool(v)] for k, v in db._category_unit_valid.items())
-        simple = {k: q for k, q in db.quantities_cache.items()
-                  if len(k) == 3 and isinstance(k[1], str) and (k[0] is None or isinstance(k[0], str))}
-        cache = sorted(([k[0], k[1], k[2] is not None, q.GetCategory(), q.GetUnit()] for k, q in simple.items()), key=_ckey)
-        # keys of derived quantities: tuples of (category, (unit, exponent)) pairs
-        dcache = sorted(([[p[0], p[1][0], int(p[1][1])] if isinstance(p, tuple) and len(p) == 2 else ["<caption>", repr(p), 0]
-                          for p in k] for k in db.quantities_cache if k not in simple), key=repr)
-        limits = {k: (ci.min_value, ci.max_value) for k, ci in db.categories_to_quantity_types.items()}
+        for r in regs:
+            rc.apply_reg(fresh, r)
+        return rc.ask(fresh, op) if "q" in op else rc.apply_reg(fresh, op)
     finally:
         UnitDatabase.PopSingleton()
-    return outs, memo, cache, limits, dcache
+
+
+def _run(ops, flags=True):
+    """The history on a fresh private database: per step the outcome and whether the registry changed."""
+    outs, tables = _run_n([dict(o, db=0) for o in ops], 1, flags)
+    return (outs,) + tables[0]
+
+
+def _run_n(ops, n, flags=True):
+    """An interleaved history on `n` private databases alive at the same time (every step carries the index `db` of the
+    database it is addressed to, which is the current one during the step): per step the outcome, whether the registry
+    of that database changed and whether the registry of ANOTHER database changed; at the end the tables of each."""
+    from barril.units.unit_database import UnitDatabase
+
+    dbs = [reg._new_db() for _ in range(n)]
+    regs = [[] for _ in range(n)]
+    outs = []
+    for op in ops:
+        i = op["db"]
+        op = {k: v for k, v in op.items() if k != "db"}
+        before = [rc.snapshot(d) for d in dbs] if flags else None
+        UnitDatabase.PushSingleton(dbs[i])
+        try:
+            o = rc.ask(dbs[i], op) if "q" in op else rc.apply_reg(dbs[i], op)
+        finally:
+            UnitDatabase.PopSingleton()
+        if flags:
+            after = [rc.snapshot(d) for d in dbs]
+            o = dict(o, changed=(after[i] != before[i]))
+            if n > 1:
+                o["others"] = any(after[j] != before[j] for j in range(n) if j != i)
+        if op.get("q") == "arith":
+            o["fresh"] = _fresh_answer(regs[i], op)
+        if "q" not in op and "err" not in o:
+            regs[i].append(op)
+        outs.append(o)
+    tables = []
+    for d in dbs:
+        UnitDatabase.PushSingleton(d)
+        try:
+            tables.append(_tables(d))
+        finally:
+            UnitDatabase.PopSingleton()
+    return outs, tables
+
+
+def _count(ctx, ops, outs, name="steps"):
+    n = ctx.notes.setdefault(name, {})
+    for op, o in zip(ops, outs):
+        key = (op["q"] if "q" in op else "Add" + op["k"]) + ("/" + o["err"] if "err" in o else "/ok")
+        n[key] = n.get(key, 0) + 1
 
 
 def impl(c, ctx):
     ops = c["_t"]["ops"]
+    if c["op"] == "chistN":
+        outs, tables = _run_n(ops, c["n"])
+        _count(ctx, ops, outs, "steps (several databases)")
+        return dict(outs=outs, dbs=[dict(memo=t[0], cache=t[1], limits=t[2], dcache=t[3]) for t in tables])
     outs, memo, cache, limits, dcache = _run(ops)
-    n = ctx.notes.setdefault("steps", {})
-    for op, o in zip(ops, outs):
-        key = (op["q"] if "q" in op else "Add" + op["k"]) + ("/" + o["err"] if "err" in o else "/ok")
-        n[key] = n.get(key, 0) + 1
+    _count(ctx, ops, outs)
     return dict(outs=outs, memo=memo, cache=cache, limits=limits, dcache=dcache)
 
 
-def agree(c, io, mo, ctx):
-    ops = c["_t"]["ops"]
-    if len(io["outs"]) != len(mo.get("outs", [])):
+def _agree_steps(ops, iouts, mouts):
+    if len(iouts) != len(mouts):
         return "length"
-    for i, (op, a, b) in enumerate(zip(ops, io["outs"], mo["outs"])):
-        if "q" in op:
-            lim = None
-            if op["q"] == "isValid":
-                lim = (-1e300, 1e300)  # limits may have changed since; near-ties are excluded by the generator
-                lim = None
-            why = rc.cmp_answer(op, a, b, lim)
+    for i, (op, a, b) in enumerate(zip(ops, iouts, mouts)):
+        if op.get("q") == "arith":
+            # the model: "the answer of a database built from this registry" (an uninterpreted function of the registry);
+            # evaluated on the real code: a new database, the registrations accepted so far, the same expression
+            if b.get("ok") != {"fresh": True}:
+                return "step %d %s: model answers %s" % (i, _show(op), b)
+            warm = {k: v for k, v in a.items() if k not in ("changed", "others", "fresh")}
+            if warm != a["fresh"] and not _near(warm, a["fresh"]):
+                return "step %d %s: answer after the history %s, on a fresh database built from the same registrations %s" % (
+                    i, _show(op), warm, a["fresh"])
+            why = None
+        elif "q" in op:
+            why = rc.cmp_answer(op, a, b, None)
         else:
             why = rc.cmp_reg_out(a, b)
         if why:
             return "step %d %s: %s" % (i, _show(op), why)
         if a["changed"] != b.get("changed"):
             return "step %d %s: registry changed impl=%s model=%s" % (i, _show(op), a["changed"], b.get("changed"))
+        if "others" in a and a["others"] != b.get("others"):
+            return "step %d %s: the registry of ANOTHER database changed impl=%s model=%s" % (i, _show(op), a["others"], b.get("others"))
+    return None
+
+
+def _agree_tables(io, mo, loose):
+    """both memo tables at the end; `loose` (the history asked arithmetic questions, whose effect on the tables the
+    model does not follow): every entry the model has must be there"""
+    def cmp(what, real, model):
+        if loose:
+            # (an entry under the key (None, unit) is only written when the resolved key (category, unit) was not there
+            # yet: an arithmetic expression may have created that one first)
+            missing = [e for e in model if e not in real
+                       and not (len(e) == 5 and e[0] is None and [e[3], e[4], e[2], e[3], e[4]] in real)]
+            return "%s after the history lacks %s (impl=%s)" % (what, missing[:6], real[:8]) if missing else None
+        return None if real == model else "%s after the history: impl=%s model=%s" % (what, real[:8], model[:8])
+
     mm = sorted([rc.unsym(int(e[0])), rc.unsym(int(e[1])), e[2]] for e in mo["memo"])
-    if mm != io["memo"]:
-        return "_category_unit_valid after the history: impl=%s model=%s" % (io["memo"][:8], mm[:8])
     mc = sorted(([None if e[0] is None else rc.unsym(int(e[0])), rc.unsym(int(e[1])), e[2], rc.unsym(int(e[3])),
                   rc.unsym(int(e[4]))] for e in mo["cache"]), key=_ckey)
-    if mc != io["cache"]:
-        return "quantities_cache after the history: impl=%s model=%s" % (io["cache"][:8], mc[:8])
     md = sorted(([[rc.unsym(int(c)), rc.unsym(int(u)), int(e)] for c, u, e in k] for k in mo.get("dcache", [])), key=repr)
-    if md != io.get("dcache", []):
-        return "derived keys of quantities_cache after the history: impl=%s model=%s" % (io.get("dcache", [])[:6], md[:6])
-    return None
+    return (cmp("_category_unit_valid", io["memo"], mm) or cmp("quantities_cache", io["cache"], mc)
+            or cmp("derived keys of quantities_cache", io.get("dcache", []), md))
+
+
+def agree(c, io, mo, ctx):
+    ops = c["_t"]["ops"]
+    why = _agree_steps(ops, io["outs"], mo.get("outs", []))
+    if why:
+        return why
+    if c["op"] == "chistN":
+        if len(mo.get("dbs", [])) != len(io["dbs"]):
+            return "number of databases"
+        for i, (a, b) in enumerate(zip(io["dbs"], mo["dbs"])):
+            why = _agree_tables(a, b, any(o.get("q") == "arith" for o in ops if o["db"] == i))
+            if why:
+                return "database %d: %s" % (i, why)
+        return None
+    return _agree_tables(io, mo, any(o.get("q") == "arith" for o in ops))
 
 
 def nontrivial(c, io):
     ops = c["_t"]["ops"]
+    if c["op"] == "chistN":
+        # a question answered in one database after the same question was asked of another one
+        seen = {}
+        for op in ops:
+            if "q" in op:
+                key = repr(sorted((k, repr(v)) for k, v in op.items() if k != "db"))
+                if seen.setdefault(key, op["db"]) != op["db"]:
+                    return True
+        return False
     state = 0
     for op, o in zip(ops, io["outs"]):
         if "q" in op and state in (0, 2):
@@ -333,41 +654,46 @@ def _strip(o):
 
 
 def _check(ops):
+    return _check_n([dict(o, db=0) for o in ops], 1)
+
+
+def _check_n(ops, n):
+    """THE PROPERTY on the real code, for an interleaved history on `n` private databases alive at the same time
+    (n = 1: one database): a read-only or failing operation changes nothing any database reports, no operation
+    changes what ANOTHER database reports, and every operation answers as on a database freshly built from the
+    registrations its own database accepted so far."""
     from barril.units.unit_database import UnitDatabase
 
-    db = reg._new_db()
-    regs = []
-    UnitDatabase.PushSingleton(db)
-    try:
-        for i, op in enumerate(ops):
-            before = rc.snapshot(db)
-            if "q" in op:
-                o = rc.ask(db, op)
-                if rc.snapshot(db) != before:
-                    return dict(clause="a read-only operation changed what the unit database reports", step=i,
-                                call=_show(op), history=[_show(x) for x in ops[: i + 1]])
-            else:
-                o = rc.apply_reg(db, op)
-                if "err" in o and rc.snapshot(db) != before:
-                    return dict(clause="a failing operation changed what the unit database reports", step=i,
-                                call=_show(op), error=o["err"], history=[_show(x) for x in ops[: i + 1]])
-            # the same operation on a fresh database built from the registrations accepted so far
-            fresh = reg._new_db()
-            UnitDatabase.PushSingleton(fresh)
-            try:
-                for r in regs:
-                    rc.apply_reg(fresh, r)
-                o2 = rc.ask(fresh, op) if "q" in op else rc.apply_reg(fresh, op)
-            finally:
-                UnitDatabase.PopSingleton()
-            if o != o2 and not _near(o, o2):
-                return dict(clause="an operation answers differently after a history of other operations than on a "
-                                   "freshly built database", step=i, call=_show(op), warm=o, fresh=o2,
-                            history=[_show(x) for x in ops[: i + 1]])
-            if "q" not in op and "err" not in o:
-                regs.append(op)
-    finally:
-        UnitDatabase.PopSingleton()
+    dbs = [reg._new_db() for _ in range(n)]
+    regs = [[] for _ in range(n)]
+    shown = [("db%d: " % o["db"] if n > 1 else "") + _show({k: v for k, v in o.items() if k != "db"}) for o in ops]
+    for step, op in enumerate(ops):
+        i = op["db"]
+        op = {k: v for k, v in op.items() if k != "db"}
+        before = [rc.snapshot(d) for d in dbs]
+        UnitDatabase.PushSingleton(dbs[i])
+        try:
+            o = rc.ask(dbs[i], op) if "q" in op else rc.apply_reg(dbs[i], op)
+        finally:
+            UnitDatabase.PopSingleton()
+        after = [rc.snapshot(d) for d in dbs]
+        if "q" in op and after[i] != before[i]:
+            return dict(clause="a read-only operation changed what the unit database reports", step=step,
+                        call=shown[step], history=shown[: step + 1])
+        if "q" not in op and "err" in o and after[i] != before[i]:
+            return dict(clause="a failing operation changed what the unit database reports", step=step,
+                        call=shown[step], error=o["err"], history=shown[: step + 1])
+        if any(after[j] != before[j] for j in range(n) if j != i):
+            return dict(clause="an operation on one unit database changed what another unit database reports", step=step,
+                        call=shown[step], history=shown[: step + 1])
+        # the same operation on a fresh database built from the registrations accepted so far
+        o2 = _fresh_answer(regs[i], op)
+        if o != o2 and not _near(o, o2):
+            return dict(clause="an operation answers differently after a history of other operations than on a "
+                               "freshly built database", step=step, call=shown[step], warm=o, fresh=o2,
+                        history=shown[: step + 1])
+        if "q" not in op and "err" not in o:
+            regs[i].append(op)
     return None
 
 
@@ -381,6 +707,8 @@ def _near(a, b):
 
 
 def oracle(c, ctx):
+    if c["op"] == "chistN":
+        return _check_n(c["_t"]["ops"], c["_t"]["n"])
     return _check(c["_t"]["ops"])
 
 
@@ -416,6 +744,9 @@ def _directed():
 
 def search(ctx):
     yield from _directed()
+    yield from _exhaustive_a(2)
+    yield from _family_cases(ctx, "s", 2, 100)
+    yield from _arith_random(ctx, "s", 200)
     yield from _exhaustive_u(3)
     yield from _exhaustive(3)
     yield from _random(ctx, "s", 1500 if ctx.tier == "quick" else 15000, 25, extra=True)
@@ -423,16 +754,18 @@ def search(ctx):
 
 def shrink(case, failure, ctx):
     ops = list(case["_t"]["ops"])
+    fam = case["op"] == "chistN"
+    n = case["_t"]["n"] if fam else 1
     i, budget = 0, 80
     while i < len(ops) and budget > 0 and len(ops) > 1:
         trial = ops[:i] + ops[i + 1:]
         budget -= 1
-        f = _check(trial)
+        f = _check_n(trial, n) if fam else _check(trial)
         if f and f["clause"] == failure["clause"]:
             ops, failure = trial, f
         else:
             i += 1
-    return _history(ops, "shrunk"), failure
+    return (_family(ops, n, "shrunk") if fam else _history(ops, "shrunk")), failure
 
 
 # ------------------------------------------------------------------------------------ known findings (optional)
